@@ -32,10 +32,10 @@ def cfg_for(out):
     return '[snoopy]\nmessage_format = ' + FMT + '\nfilter_chain = ' + CHAIN + '\noutput = ' + o + '\n'
 
 
-def judge(x, k, out):
+def judge(x, k, out, nthr=2):
     bad = []
     if x.timed_out:
-        return ['timeout']
+        return ['hang_nothing_runnable_in_the_process_tree' if getattr(x, 'hang', '') == 'hang' else 'timeout']
     if x.rc == 77:
         return ['parent_deadlock']
     if x.rc == 79:
@@ -64,11 +64,11 @@ def judge(x, k, out):
         bad.append('parent_registry_not_empty')
     if r['mutex_trylock'] != 0:
         bad.append('parent_mutex_left_locked')
-    if r['rec_calls'][1] != k or r['bad_ret']:
+    if any(r['rec_calls'][t] != k for t in range(1, nthr)) or r['bad_ret']:
         bad.append('parent_exec_passthrough')
     if out == 'file':
         lines = [l for l in (x.log or b'').decode('latin-1').split('\n') if l]
-        want = ['/t1/prog%d|cmd arg-t1-j%d T1T1T1|' % (j, j) for j in range(k)] + ['/child/prog|childcmd childarg|', '/lone|LONE|']
+        want = ['/t%d/prog%d|cmd arg-t%d-j%d T%dT%dT%d|' % (t, j, t, j, t, t, t) for t in range(1, nthr) for j in range(k)] + ['/child/prog|childcmd childarg|', '/lone|LONE|']
         for w in want:
             if len([l for l in lines if l.startswith(w)]) != 1:
                 bad.append('record_missing_or_duplicated(%s)' % w.split('|')[0])
@@ -94,6 +94,19 @@ def run(ck):
                     continue
                 plan.append(('%s-d%d-k%d' % (out, depth, k), va, False, out, depth, k, 1 if q else 2))
     plan.append(('fn-file-d1-k1', vf, True, 'file', 1, 1, 1))
+    # two other threads inside the library at the moment of the fork (the child's copy of the registry holds two foreign entries)
+    plan.append(('file-n3-d1-k1', va, False, 'file', 1, 1, 1, 3))
+    plan.append(('devlog-n3-d1-k1', va, False, 'devlog', 1, 1, 1, 3))
+    plan.append(('hashed-file-n3-d1-k1', va, False, 'file', 1, 1, 'hashed', 3))
+    # snoopy's open/write/writev/close are scheduling points too: the fork is also taken while the other thread is between the
+    # system calls of its output (whatever it holds there - a descriptor, a lock on it - is inherited by the child)
+    vio = S.build_thr('c10-schedio-asan', san='asan', io=True)
+    plan.append(('io-file-d1-k1', vio, False, 'file', 1, 1, 1))
+    plan.append(('io-stdout-d1-k1', vio, False, 'stdout', 1, 1, 1))
+    if not q:
+        plan.append(('io-file-d2-k2', vio, False, 'file', 2, 2, 2))
+        plan.append(('file-n4-d1-k1', va, False, 'file', 1, 1, 1, 4))
+        plan.append(('file-n3-d1-k1-b2', va, False, 'file', 1, 1, 2, 3))
     # state-hashed: every interleaving of the forking thread with the other thread's call(s), no preemption bound
     plan.append(('hashed-file-d1-k1', va, False, 'file', 1, 1, 'hashed'))
     plan.append(('hashed-file-d2-k2', va, False, 'file', 2, 2, 'hashed'))
@@ -104,21 +117,23 @@ def run(ck):
     fork_points = set()
     hashed_states = [0]
     diverged = [0]
-    for name, v, fn, out, depth, k, bound in plan:
+    for pl in plan:
+        name, v, fn, out, depth, k, bound = pl[:7]
+        nthr = pl[7] if len(pl) > 7 else 2
         if ck.out_of_time():
             break
         tl = threading.local()
         cnt = [0]
 
-        def runner(prefix, v=v, fn=fn, out=out, depth=depth, k=k, name=name):
+        def runner(prefix, v=v, fn=fn, out=out, depth=depth, k=k, name=name, nthr=nthr):
             if not hasattr(tl, 'w') or tl.name != name:
                 cnt[0] += 1
                 tl.w = os.path.join(ck.workdir, '%s-w%d' % (name, cnt[0]))
                 tl.name = name
-            return S.run_one(v['h_thr'], tl.w, cfg_for(out), 2, k, 'fork', prefix, san='asan', fn=fn, extra_args=[str(depth)], timeout=60, env_extra={'VS_STDIN_PTY': '1', 'A': 'a'})
+            return S.run_one(v['h_thr'], tl.w, cfg_for(out), nthr, k, 'fork', prefix, san='asan', fn=fn, extra_args=[str(depth)], timeout=60, env_extra={'VS_STDIN_PTY': '1', 'A': 'a'})
 
-        def check(x, k=k, out=out, name=name, bound=bound, depth=depth):
-            bad = judge(x, k, out)
+        def check(x, k=k, out=out, name=name, bound=bound, depth=depth, nthr=nthr):
+            bad = judge(x, k, out, nthr)
             # where was the fork taken relative to thread 1's progress?
             t1 = 0
             for p in x.points:
@@ -137,7 +152,7 @@ def run(ck):
                 ck.violation('C10:%s:%s' % ('+'.join(sorted(set(bad))), name),
                              {'campaign': name, 'output': out, 'child_fork_depth': depth, 'calls_of_other_thread': k, 'schedule_prefix': x.prefix, 'preemption_bound': bound, 'failed': bad,
                               'result': x.result, 'child_trace_tail': x.child_traces, 'sanitizer': x.san[:1], 'log': (x.log or b'').decode('latin-1')[:500],
-                              'replay': 'VS_PREFIX=%s h_thr <ini> <res> 2 %d fork %d' % (','.join(map(str, x.prefix)), k, depth)})
+                              'replay': 'VS_PREFIX=%s h_thr <ini> <res> %d %d fork %d' % (','.join(map(str, x.prefix)), nthr, k, depth)})
         t0 = time.time()
         if bound == 'hashed':
             n, complete, nst, ned = S.explore_hashed(runner, check, deadline=ck.deadline)
